@@ -127,6 +127,7 @@ int main(int argc, char** argv)
     prop.gen = [](int tier) {
         EncGenParams p;
         p.maxBatch = tier ? 40 : 12;
+        p.beyond16Bit = true;
         p.boundaryWeight = 10;
         return withPriorCalls(genEncCase(p), p);
     };
